@@ -172,7 +172,9 @@ Export ==
                     roots |-> TheRoots, cfg |-> TheCfg, sfx |-> Sfx, trees |-> TheTrees,
                     active |-> Act,
                     exp |-> Exp, dev |-> DevExp, keys |-> DevKeysFor(TheCfg, TheRoots, TheTrees, Sfx),
-                    load |-> UNION {{[k |-> k, parts |-> e.parts, dot |-> DotPath(TheRoots[k], e)] :
+                    \* files to import one by one (the cfg family imports through autodiscover() only)
+                    load |-> IF IsCfg THEN {} ELSE
+                             UNION {{[k |-> k, parts |-> e.parts, dot |-> DotPath(TheRoots[k], e)] :
                                        e \in {x \in SelectedIn(k, ".py") : Loadable(TheTrees[k], x)}} : k \in Act},
                     expauto |-> Expected(TheCfg, TheRoots, TheTrees, ".py"),
                     \* autodiscover() can be called: every selected .py file is loadable and no deviation applies
